@@ -175,6 +175,9 @@ def observe(text, params=None, loop_id=None):
     html = re.sub(r'Analysis Date: [0-9/: ]+', 'Analysis Date: #', r.html or '')
     out = {'verdict': r.verdict, 'exc': list(r.exc[:3]) if r.exc else None,
            'errors': [list(map(str, e)) for e in r.errors], 'ack': mask_ack(r.ack), 'html': html, 'xml': r.xml}
+    if r.exc:
+        # an escaped exception is C07's business; how far the sinks got closed then depends on the cycle collector
+        out['html'] = out['xml'] = out['ack'] = 'n/a (exception escaped)'
     ctx = []
     try:
         p = params if params is not None else pyx12.params.params()
